@@ -129,6 +129,7 @@ impl Which {
             }
             Which::C16 => {}
             Which::C19 => {
+                o.generics = true;
                 o.clone_only_loc = true;
                 o.builtin = 70;
                 o.marker_chance = 60;
@@ -181,6 +182,7 @@ struct GramCase {
     cfg_kept: usize,
     /// pair mode: what the variant changed
     pair_note: String,
+    extra_args: Vec<String>,
     has_inline_user: bool,
     bind_forms: usize,
     nullable_any: bool,
@@ -294,6 +296,7 @@ fn case_from_spec(
                 cfg_deleted: 1,
                 cfg_kept: 1,
                 pair_note,
+                extra_args: vec![],
                 spec,
                 core: Core::default(),
             });
@@ -498,6 +501,11 @@ fn case_from_spec(
         cfg_deleted,
         cfg_kept,
         pair_note,
+        extra_args: match spec.extra {
+            None => vec![],
+            Some(crate::gspec::ExtraParam::TwoTypeParams) => vec!["&0u8".to_string()],
+            Some(_) => vec!["&0u8".to_string()],
+        },
         spec,
         core,
     })
@@ -697,6 +705,7 @@ fn evaluate_cases(
                 },
                 flags: if c.feats.is_empty() { vec![] } else { vec!["--features".to_string(), c.feats.iter().cloned().collect::<Vec<_>>().join(",")] },
                 compile: true,
+                extra_args: c.extra_args.clone(),
             });
         }
         if which == Which::C15 {
@@ -709,6 +718,7 @@ fn evaluate_cases(
                 loc_ty: None,
                 flags: vec![],
                 compile: false,
+                extra_args: vec![],
             });
         }
     }
@@ -1914,6 +1924,7 @@ pub fn run_c27(ctx: Ctx, replay: Option<PathBuf>) -> i32 {
                     },
                     flags: vec![],
                     compile: true,
+                    extra_args: c.extra_args.clone(),
                 });
             }
         }
